@@ -228,6 +228,14 @@ func familyC14(w *px.Writer, r *rand.Rand, thorough bool) {
 		caseDivider(w, "empty-list", nil, 5, m)
 	}
 
+	// priority 0 is a valid uint priority: alone (the sum of the priorities is 0) and as the lowest
+	for _, ps := range [][]uint{{0}, {5, 0}, {3, 2, 0}, {7, 1, 0}} {
+		for _, d := range []uint{0, 1, 6, 7, 100} {
+			caseDivider(w, "zero-priority", ps, d, map[uint]uint{})
+			caseDivider(w, "zero-priority", ps, d, map[uint]uint{ps[0]: 4})
+		}
+	}
+
 	// exhaustive small scope
 	for _, ps := range subsetsDesc(top, maxLen) {
 		for d := uint(0); d <= maxD; d++ {
